@@ -75,7 +75,57 @@ fn roundtrip_wellformed(rep: &mut Report, bytes: &[u8], source: &str) {
     for (_, _, name) in &spans.attrs { rep.seen("attribute_kinds", if KNOWN.contains(&name.as_str()) { name } else { "<unknown>" }); }
 }
 
+/// The raw-values case of the ordinary workload (same steps, same signatures) as a function, for the Miri slice.
+fn raw_values_case(rng: &mut Rng, rep: &mut Report, m: &cf::model::Class) {
+    let mut layout = emit::Layout::random(rng.next_u64()); layout.two_slot_fillers = false;
+    let Ok(mut bytes) = emit::emit(m, &layout) else { return; };
+    let Ok(p) = parse::parse_with_spans(&bytes) else { return; };
+    let cand: Vec<&parse::Span> = p.spans.spans.iter().filter(|s| matches!(s.role, parse::Role::PoolIndex | parse::Role::Flags | parse::Role::Value | parse::Role::Version)).collect();
+    if cand.is_empty() { return; }
+    let k = rng.usize_in(1, 4);
+    for _ in 0..k { let s = *rng.pick(&cand); for i in 0..s.len { bytes[s.off + i] = rng.next_u32() as u8; } }
+    rep.eval();
+    let Ok(Ok(v)) = guard(|| ClassFile::read(&mut Cursor::new(&bytes[..])).ok().ok_or(())) else { rep.count("raw.read_refused_or_panicked"); return; };
+    rep.count("raw.values");
+    let w = match guard(|| (v.to_bytes(), v.length())) { Ok(x) => x, Err(pn) => { rep.violation(format!("C20 write panics on a value read() produced: {}", pn.site()), json!({"input_hex": hex(&bytes)})); return; } };
+    if w.1 != w.0.len() { rep.violation("C20 length() != bytes written (raw value)", json!({"input_hex": hex(&bytes), "length": w.1, "written": w.0.len()})); }
+    match guard(|| ClassFile::read(&mut Cursor::new(&w.0[..])).map_err(|e| e.to_string())) {
+        Ok(Ok(v2)) => { if v2 != v { rep.violation("C20 read(write(v)) != v", json!({"input_hex": hex(&bytes), "written_hex": hex(&w.0)})); } else { rep.count("raw.value_roundtrips"); } }
+        Ok(Err(e)) => rep.violation(format!("C20 read rejects what write produced: {}", template(&e)), json!({"input_hex": hex(&bytes), "written_hex": hex(&w.0), "error": e})),
+        Err(pn) => rep.violation(format!("C20 read panics on what write produced: {}", pn.site()), json!({"input_hex": hex(&bytes)})),
+    }
+}
+
+/// `c20 --miri-slice <seed> <cases> <max seconds>`: single-threaded, no files. Two cases in three: a small generated class
+/// (names redrawn from cf::hostile, so the Utf8 entries carry NUL, surrogates and long names; every eighth with long/double pool
+/// entries, which derails the reader - known finding - and makes it parse whatever follows) read and written back byte for byte;
+/// one in three: the raw-values case (1-4 index / flag / value fields randomised, read -> write -> read).
+fn miri_slice(seed: u64, cases: usize, max_s: u64) -> i32 {
+    let mut rep = Report::new();
+    let deadline = std::time::Instant::now() + std::time::Duration::from_secs(max_s);
+    let small = gen::GenCfg { max_fields: 2, max_methods: 2, max_insns: 6, ..gen::GenCfg::default() };
+    let small1 = gen::GenCfg { two_slot_constants: false, ..small.clone() };
+    let (mut i, mut bytes_in) = (0u64, 0usize);
+    while (i as usize) < cases && std::time::Instant::now() < deadline {
+        let mut rng = Rng::new(common::rng::case_seed(seed, "C20/miri", i));
+        rep.cur = ("miri".into(), i);
+        let with_two = i % 8 == 5;
+        let mut m = gen::gen_class(&mut rng, if with_two { &small } else { &small1 });
+        cf::hostile::hostilise(&mut rng, &mut m, (1, 3), if i % 8 == 7 { 2000 } else { 48 });
+        if i % 3 == 2 && !with_two { raw_values_case(&mut rng, &mut rep, &m); }
+        else {
+            let mut layout = if rng.bool() { emit::Layout::canonical() } else { emit::Layout::random(rng.next_u64()) }; layout.two_slot_fillers = with_two;
+            if let Ok(bytes) = emit::emit(&m, &layout) { bytes_in += bytes.len(); roundtrip_wellformed(&mut rep, &bytes, "generated (miri slice)"); } else { rep.count("emit.skipped"); }
+        }
+        i += 1;
+    }
+    for v in rep.violations.values() { println!("SLICE-OBSERVATION {} ({}x)", v.signature, v.count); }
+    println!("MIRI-SLICE done cases={} (asked for {}) evaluations={} observations={} byte_exact_roundtrips={} bytes_in={} raw_values={} raw_value_roundtrips={} raw_read_refused={}", i, cases, rep.evaluations, rep.violations.len(), rep.get("wellformed.byte_exact"), bytes_in, rep.get("raw.values"), rep.get("raw.value_roundtrips"), rep.get("raw.read_refused_or_panicked"));
+    0
+}
+
 fn main() {
+    if let Some((seed, n, max_s)) = common::miri::slice_args() { std::process::exit(miri_slice(seed, n, max_s)); }
     let mut ctx = Ctx::from_args("C20", 40, 420);
     let replay = load_replay(&mut ctx);
     let mut rep = Report::new();
@@ -178,5 +228,14 @@ fn main() {
         meta.oblige("inputs delivered through a short-read reader as well as through a slice", rep.get("reader.short_reads") > 100 && rep.get("reader.cursor") > 100);
         meta.oblige("attribute payloads larger than 65536 bytes were read (at every level: class, field, method, Code, SourceDebugExtension)", rep.get("large.over_65536") >= 30 && ["large.class.unknown", "large.class.source_debug_extension", "large.field.unknown", "large.method.unknown", "large.code.unknown"].iter().all(|k| rep.get(k) > 0));
     }
+    if replay.is_none() {
+        if ctx.tier == Tier::Thorough {
+            let r = common::miri::run_slice(&ctx, "c20", env!("CARGO_MANIFEST_DIR"), MIRI_CASES, 150, 280);
+            if let Some(line) = r.ub { rep.cur = ("miri".into(), 0); rep.violation(format!("miri: {line}"), json!({"how": format!("cargo +nightly miri run --offline -p c20 -- --miri-slice <seed> {MIRI_CASES} 150"), "seed": ctx.seed as i64, "status": r.status})); }
+            meta.extra.insert("miri_slice".into(), json!(r.status));
+        } else { meta.extra.insert("miri_slice".into(), json!("not run in the quick tier")); }
+    }
     std::process::exit(finish(&ctx, rep, meta));
 }
+/// cases asked of the Miri slice in the thorough tier; it stops by itself after 150 s (see NOTES.md)
+const MIRI_CASES: usize = 30;
